@@ -39,8 +39,14 @@ pub fn run(script: &str) {
     match script {
         "rendezvous_value" => {
             let (tx, rx) = mpsc::sync_channel::<u32>(0);
-            let h = loom::thread::spawn(move || rx.recv().unwrap());
+            let h = loom::thread::spawn(move || {
+                let v = rx.recv().unwrap();
+                // drain until the sender hangs up (as a pool worker does)
+                assert!(rx.recv().is_err(), "oracle:SHIM:rendezvous:second value");
+                v
+            });
             tx.send(7).unwrap();
+            drop(tx);
             let v = h.join().unwrap();
             assert_eq!(v, 7, "oracle:SHIM:rendezvous:value");
             record(format!("rendezvous_value:{v}"));
@@ -48,15 +54,18 @@ pub fn run(script: &str) {
         "rendezvous_blocks" => {
             // Just before `recv` is called, the matching `send` cannot have returned.
             let (tx, rx) = mpsc::sync_channel::<u32>(0);
-            let sent = Arc::new(AtomicBool::new(false));
+            // a loom atomic, so that the explorer orders the load against the store
+            let sent = Arc::new(loom::sync::atomic::AtomicBool::new(false));
             let s2 = sent.clone();
             let h = loom::thread::spawn(move || {
                 let early = s2.load(SeqCst);
                 let v = rx.recv().unwrap();
+                assert!(rx.recv().is_err(), "oracle:SHIM:rendezvous:second value");
                 (early, v)
             });
             tx.send(1).unwrap();
             sent.store(true, SeqCst);
+            drop(tx);
             let (early, v) = h.join().unwrap();
             assert!(!early, "oracle:SHIM:rendezvous:send returned before recv was called");
             record(format!("rendezvous_blocks:{early}:{v}"));
